@@ -172,6 +172,8 @@ def runner(name, module):
             ns.setdefault(c, val)
         for pair, comps in spec.get("unpack", {}).items():
             ns[pair] = tuple(inputs[c] for c in comps)
+        for a in spec.get("extends", ()):
+            ns[a] = []
         for a in spec.get("appends", ()):        # lists the slice appends to: fresh and empty; the output is the last value appended (None: nothing)
             ns[a] = []
         for r in roots:
@@ -189,7 +191,12 @@ def runner(name, module):
             loc = res[1]
             vals = []
             for o in outs:
-                if o.endswith(".append") and o[:-7] in spec.get("appends", ()):
+                if o.endswith(".extend.value") and o[:-13] in spec.get("extends", ()):
+                    lst = _get_path(loc, o[:-13])
+                    vals.append(lst[-1] if lst else float("nan"))
+                elif o.endswith(".extend.count") and o[:-13] in spec.get("extends", ()):
+                    vals.append(len(_get_path(loc, o[:-13])))
+                elif o.endswith(".append") and o[:-7] in spec.get("appends", ()):
                     lst = _get_path(loc, o[:-7])
                     vals.append(lst[-1] if lst else None)
                 elif o.endswith("[]"):
